@@ -1325,3 +1325,101 @@ def t_flags_store(facts, res, tier):
             continue
         if d["bad"] is not None:
             res.fail(key, facts.where(d["fn"], d["bad"]["node"]), "a path through %s stores to memory and returns without assigning `flags`: a claim that N/Z describe that cell, made before the store, survives it (`a = b; a = X; if (a)` tests the flags of b)" % d["fn"]["name"])
+
+
+# ----------------------------------------------------------------------------- C01 (no part of the parse tree is dropped)
+
+
+def _max_children(nfa, limit=64):
+    """Largest number of child pairs the rule's automaton can yield; None = unbounded."""
+    # longest path in the symbol graph; a cycle through a symbol edge means unbounded
+    import sys
+    sys.setrecursionlimit(10000)
+    memo = {}
+    onstack = set()
+
+    def go(state):
+        cl = nfa.closure({state})
+        key = cl
+        if key in memo:
+            return memo[key]
+        if key in onstack:
+            return None
+        onstack.add(key)
+        best = 0
+        for s in cl:
+            for sym, t in nfa.trans[s]:
+                if sym is None:
+                    continue
+                sub = go(t)
+                if sub is None:
+                    onstack.discard(key)
+                    memo[key] = None
+                    return None
+                best = max(best, 1 + sub)
+        onstack.discard(key)
+        memo[key] = best
+        return best
+    return go(nfa.start)
+
+
+@rule("T-TREEWALK-ALL", floor=9,
+      text="the tree walkers do not drop what the grammar parsed: where the arm for a grammar rule takes the rule's children with a fixed number of "
+           "`next()` calls (no loop over them, the iterator handed to nobody), the grammar cannot produce more children than that.  A child left on "
+           "the iterator is source text that was accepted and then ignored: `if (a) if (b) A; else B; else C;` parsed with `(\\\"else\\\" ~ statement)*`, "
+           "the walker took one else, and C was never generated")
+def t_treewalk_all(facts, res, tier):
+    import rules_treewalk as tw
+    rules = facts.grammar_rules()
+    nfas = tw.build_nfas(rules)
+    n = 0
+    for fn in facts.fns:
+        if fn.get("test") or not fn["file"].endswith("compile.rs"):
+            continue
+        for m in walk(fn["body"]):
+            if m.get("k") != "match" or not expr_text(m["e"]).replace(" ", "").endswith(".as_rule()"):
+                continue
+            pv = expr_text(m["e"]).replace(" ", "")[:-len(".as_rule()")]
+            for arm in m["arms"]:
+                p = arm["pat"]
+                alts = p.get("alts") if p.get("k") == "or" else [p]
+                names = [(a.get("segs") or ["?"])[-1] for a in alts if a.get("k") == "path" and len(a.get("segs", [])) == 2 and a["segs"][0] == "Rule"]
+                if not names:
+                    continue
+                body = arm["body"]
+                # `let mut V = <pv>.into_inner();`
+                its = [x for x in walk(body) if x.get("k") == "let" and x["pat"].get("k") == "ident" and expr_text(x.get("init") or {}).replace(" ", "") == pv + ".into_inner()"]
+                if len(its) != 1:
+                    continue
+                v = its[0]["pat"]["name"]
+                uses = [x for x in walk(body) if x.get("k") == "path" and x["segs"] == [v]]
+                nexts = [x for x in walk(body) if x.get("k") == "mcall" and x["method"] == "next" and expr_text(x["recv"]).strip() == v]
+                # any other use of V (a loop over it, an argument, a method other than next) consumes it some other way
+                other = len(uses) - len(nexts)
+                if other > 0:
+                    continue
+                # next() calls inside a loop count as unbounded
+                looped = False
+                par = _parents(body)
+                for x in nexts:
+                    q = x
+                    while q is not None:
+                        pq, kq, iq = par.get(id(q), (None, None, None))
+                        if pq is not None and pq.get("k") in ("loop", "while", "for"):
+                            looped = True
+                        q = pq
+                if looped:
+                    continue
+                for nm in names:
+                    if nm not in nfas:
+                        continue
+                    n += 1
+                    mx = _max_children(nfas[nm])
+                    key = "T-TREEWALK-ALL:%s:%s" % (fn["name"], nm)
+                    res.inst(key, True, {"function": fn["name"], "rule": nm, "children_taken": len(nexts), "children_possible": "unbounded" if mx is None else mx})
+                    if mx is None or mx > len(nexts):
+                        res.fail(key, facts.where(fn, its[0]), "%s takes %d child(ren) of `%s` and drops the iterator, but the grammar can produce %s: the rest of what was parsed is ignored without an error" % (
+                            fn["name"], len(nexts), nm, "any number" if mx is None else mx))
+    if n == 0:
+        raise AnchorMissing("no arm taking the children of a grammar rule with a fixed number of next() calls found")
+    res.note("%d (walker arm, grammar rule) pairs with a fixed number of children taken" % n)
